@@ -46,6 +46,7 @@ def parseCmd (s : String) : Option Call :=
   | "rd" => some { cmd := .rd, halt }
   | "rda" => some { cmd := .rda, halt }
   | "rt" => some { cmd := .rt, halt }
+  | "sp" => some { cmd := .sp, halt }
   | _ => none
 
 inductive POp where
@@ -56,9 +57,12 @@ inductive POp where
   | driver            -- conn.AL / drv.W
   | request           -- snd.R:…
   | call (id : Nat) (c : Call)
+  /-- `#<text>`: an annotation of the generator, ignored by the interpreter -/
+  | note (s : String)
 
 def parseOp (s : String) : Option POp :=
-  if s == "conn.AL" || s == "drv.W" then some .driver
+  if s.startsWith "#" then some (.note s)
+  else if s == "conn.AL" || s == "drv.W" then some .driver
   else if s.startsWith "snd.R:" then some .request
   else match s.toList with
   | 'o' :: r => (String.ofList r).toNat?.map .open_
@@ -80,26 +84,36 @@ def parseOp (s : String) : Option POp :=
     | _ => none
   | _ => none
 
+/-- `wt=0|1`: WebTransport enabled in the configuration or not makes no difference to a stream read
+    through `resolve_request` / `recv_response` (R-03b) -/
 def cfgOk (s : String) : Bool :=
-  (s.splitOn ",").all fun t => t == "-" || t == "g0" || t == "g1" || t.startsWith "seed="
+  (s.splitOn ",").all fun t => t == "-" || t == "g0" || t == "g1" || t.startsWith "seed=" || t == "wt=0" || t == "wt=1"
 
 structure Scen where
   role : Role
   sid : Nat
   ops : List Op
+  /-- the generator's promise `#pieces`: the single `recv_data` calls that precede the body loop
+      find a piece of data each (they do not reach the end of the body) -/
+  pieces : Bool := false
 
 /-- `none` = a line this engine does not model -/
 def parseScen (role : Role) (ops : List String) : Option Scen := do
   let ps ← ops.mapM parseOp
   -- set-up part: everything up to the op that creates the request stream's task
   let isUni (id : Nat) : Bool := id % 4 == (if role == .server then 2 else 3)
+  let pieces : Bool := ps.any fun p => match p with | .note s => s == "#pieces" | _ => false
   let rec go (ps : List POp) (driver : Bool) (sid : Option Nat) (created : Bool) (acc : List Op) :
       Option Scen :=
     match ps with
     | [] =>
       match sid with
-      | some sid => if driver && created then some { role, sid, ops := acc.reverse } else none
+      | some sid =>
+        if driver && created then
+          some { role, sid, ops := acc.reverse, pieces }
+        else none
       | none => none
+    | .note _ :: r => go r driver sid created acc
     | .open_ id :: r =>
       if isUni id then go r driver sid created acc
       else if role == .server && id % 4 == 0 && sid.isNone then go r driver (some id) driver acc
@@ -119,7 +133,7 @@ def parseScen (role : Role) (ops : List String) : Option Scen := do
 /-! ### rendering the model's answer -/
 
 def cmdName : Cmd → String
-  | .res => "res" | .rr => "rr" | .rd => "rd" | .rda => "rda" | .rt => "rt"
+  | .res => "res" | .rr => "rr" | .rd => "rd" | .rda => "rda" | .rt => "rt" | .sp => "sp"
 
 def renderRes : Res → String
   | .head _ => "ok"
@@ -139,10 +153,13 @@ inductive G where
   | other (c : Cmd) (a : Ans)
 
 /-- entries oldest first; consecutive data pieces of `rd` are merged; `no-task` entries (an
-    artefact of posting commands to a task that has ended) are dropped -/
+    artefact of posting commands to a task that has ended) are dropped; so is a `split` that was
+    carried out (it has no result of its own: what is compared is what the receive calls answer,
+    whole or split — `C03_split_preserves_outcome`) -/
 def group : List (Cmd × Ans) → List G
   | [] => []
   | (_, .noTask) :: r => group r
+  | (.sp, .ok) :: r => group r
   | (.rd, .res (.data b)) :: r =>
     match group r with
     | .data all ns :: gs => .data (b ++ all) (b.length :: ns) :: gs
@@ -153,6 +170,7 @@ def renderG : G → String
   | .data all ns => "rd=data:" ++ toHex all ++ "/" ++ "+".intercalate (ns.map toString)
   | .other c .badCmd => cmdName c ++ "=bad-cmd"
   | .other c .noTask => cmdName c ++ "=no-task"
+  | .other c .ok => cmdName c ++ "=ok"
   | .other c (.res x) => cmdName c ++ "=" ++ renderRes x
 
 def optCode : Option Nat → String
@@ -174,9 +192,31 @@ def renderSim (m : Sim) : String :=
 
 /-! ### the specification's answer -/
 
+/-- the bytes behind the first frame type 0x41 at a frame position (walks the frames as
+    `H3.Spec.Framing.observe` does, which stops there with `outside`) -/
+def wtRest : Nat → Bytes → Option Bytes
+  | 0, _ => none
+  | fuel+1, w =>
+    if w = [] then none else
+    match H3.Varint.rfcDecode w with
+    | none => none
+    | some (ty, r1) =>
+      if ty = 0x41 then some r1 else
+      match H3.Varint.rfcDecode r1 with
+      | none => none
+      | some (len, r2) => if r2.length < len then none else wtRest fuel (r2.drop len)
+
 open H3.Spec.ReqSeq in
-/-- frames of the wire bytes by meaning (`none` = outside this specification) -/
-def toKs (role : Role) : List H3.Spec.Framing.Tok → Bool → Option (List K × Stop)
+/-- R-03b: is the 0x41 header complete (type and session id)? -/
+def wtKind (w : ReqRecv.Bytes) : K :=
+  match wtRest (w.length + 1) w with
+  | some r => if (H3.Varint.rfcDecode r).isSome then .W else .Wpart
+  | none => .W
+
+open H3.Spec.ReqSeq in
+/-- frames of the wire bytes by meaning (`none` = outside this specification); `wk` / `wstop`: what
+    the WebTransport header at which the framing oracle stops is, and how the stream stops there -/
+def toKs (role : Role) (wk : K) (wstop : Stop) : List H3.Spec.Framing.Tok → Bool → Option (List K × Stop)
   | [], _ => some ([], .open_)
   | .none_ :: _, _ => some ([], .fin)
   | .pending :: _, _ => some ([], .open_)
@@ -184,24 +224,24 @@ def toKs (role : Role) : List H3.Spec.Framing.Tok → Bool → Option (List K ×
   | .malformed :: _, _ => some ([.M], .open_)
   | .h2 _ :: _, _ => some ([.R], .open_)
   | .badSettings :: _, _ => some ([.S], .open_)
-  | .okSettings :: r, sawHead => (toKs role r sawHead).map fun (ks, st) => (.X :: ks, st)
-  | .outside :: _, _ => none
+  | .okSettings :: r, sawHead => (toKs role wk wstop r sawHead).map fun (ks, st) => (.X :: ks, st)
+  | .outside :: _, _ => some ([wk], wstop)
   | .data _ :: _, _ => none
   | .partialData _ :: _, _ => none
   | .frame (.headers p) :: r, sawHead =>
     let cls := if sawHead then (hdrFor role).trailer p else (hdrFor role).head p
-    if cls == .ok && known p then (toKs role r true).map fun (ks, st) => (.H p :: ks, st) else none
+    if cls == .ok && known p then (toKs role wk wstop r true).map fun (ks, st) => (.H p :: ks, st) else none
   | .frame (.data n) :: .data bs :: r, sawHead =>
-    if bs.length == n then (toKs role r sawHead).map fun (ks, st) => (.D bs :: ks, st)
-    else (toKs role r sawHead).map fun (_, st) => ([.Dpart bs], st)
+    if bs.length == n then (toKs role wk wstop r sawHead).map fun (ks, st) => (.D bs :: ks, st)
+    else (toKs role wk wstop r sawHead).map fun (_, st) => ([.Dpart bs], st)
   | .frame (.data _) :: .partialData bs :: r, sawHead =>
-    (toKs role r sawHead).map fun (_, st) => ([.Dpart bs], st)
+    (toKs role wk wstop r sawHead).map fun (_, st) => ([.Dpart bs], st)
   | .frame (.data n) :: r, sawHead =>
-    if n == 0 then (toKs role r sawHead).map fun (ks, st) => (.D [] :: ks, st)
-    else (toKs role r sawHead).map fun (_, st) => ([.Dpart []], st)
-  | .frame (.pushPromise _ _) :: r, sawHead => (toKs role r sawHead).map fun (ks, st) => (.P :: ks, st)
+    if n == 0 then (toKs role wk wstop r sawHead).map fun (ks, st) => (.D [] :: ks, st)
+    else (toKs role wk wstop r sawHead).map fun (_, st) => ([.Dpart []], st)
+  | .frame (.pushPromise _ _) :: r, sawHead => (toKs role wk wstop r sawHead).map fun (ks, st) => (.P :: ks, st)
   | .frame (.webTransport _) :: _, _ => none
-  | .frame _ :: r, sawHead => (toKs role r sawHead).map fun (ks, st) => (.X :: ks, st)
+  | .frame _ :: r, sawHead => (toKs role wk wstop r sawHead).map fun (ks, st) => (.X :: ks, st)
 
 open H3.Spec.ReqSeq in
 /-- tokens of one acceptable outcome, in the vocabulary of `renderSim` -/
@@ -228,7 +268,6 @@ def renderOutcome (role : Role) (o : Outcome) : String :=
 
 open H3.Spec.ReqSeq in
 def renderExpect (role : Role) : Expect → List String
-  | .any => ["?"]
   | .oneOf os => os.map (renderOutcome role)
 
 open H3.Spec.ReqSeq in
@@ -256,12 +295,20 @@ def streamEnd : List Op → H3.Spec.ReqSeq.Stop
   | _ :: r => streamEnd r
 
 /-- the calls of the line are the documented pattern: head, body until its end, trailers —
-    each given up when it fails -/
-def documentedCalls (role : Role) (ops : List Op) : Bool :=
+    each given up when it fails.  `split` may come anywhere after the head call (it has no result
+    of its own), and the body may be begun with single `recv_data` calls before the loop (the
+    generator sees to it that these do not reach the end of the body: the pieces are there). -/
+def documentedCalls (role : Role) (ops : List Op) (pieces : Bool) : Bool :=
   let calls := ops.filterMap fun o => match o with | .call c => some c | _ => none
   let h : Cmd := if role == .server then .res else .rr
-  calls == [{ cmd := h, halt := true }, { cmd := .rda, halt := true }, { cmd := .rt, halt := false }] ||
-  calls == [{ cmd := h, halt := true }, { cmd := .rda, halt := true }, { cmd := .rt, halt := true }]
+  match calls with
+  | first :: rest =>
+    let rest := rest.filter fun c => c.cmd != Cmd.sp
+    let rest := if pieces then rest.dropWhile fun c => c == { cmd := Cmd.rd, halt := true } else rest
+    first == { cmd := h, halt := true } &&
+    (rest == [{ cmd := .rda, halt := true }, { cmd := .rt, halt := false }] ||
+     rest == [{ cmd := .rda, halt := true }, { cmd := .rt, halt := true }])
+  | [] => false
 
 def dedup : List String → List String
   | [] => []
@@ -269,13 +316,13 @@ def dedup : List String → List String
 
 open H3.Spec.ReqSeq in
 def specLine (sc : Scen) : String :=
-  if !documentedCalls sc.role sc.ops then "?" else
+  if !documentedCalls sc.role sc.ops sc.pieces then "?" else
   let w := streamBytes sc.ops
   let stop := streamEnd sc.ops
   let side : Side := if sc.role == .server then .server else .client
   let fend : H3.Spec.Framing.Ending := if stop == .fin then .fin else .open_
   let toks := H3.Spec.Framing.observe (w.length + 1) w fend
-  match toKs sc.role toks false with
+  match toKs sc.role (wtKind w) (if stop == .fin then .truncated else .open_) toks false with
   | none => "?"
   | some (ks, st) =>
     -- `st` is the framing's view of the end (clean, inside a frame, still open)
